@@ -89,7 +89,8 @@ def main(argv=None):
         traceback.print_exc()
         print(f"CHECKER-ERROR property={a.prop}: contracts could not be loaded")
         return 3
-    contracts = [c for c in CONTRACTS.values() if a.prop in c.props]
+    contracts = [c for c in CONTRACTS.values() if a.prop in c.props
+                 and (getattr(c, "tier", None) in (None, a.tier) or os.environ.get("VERIF_ALL_TIERS"))]
     timeout_ms = 10000 if a.tier == "quick" else 60000
     tasks = plan_tasks(contracts, timeout_ms)
     results = []
